@@ -658,3 +658,111 @@ func (f *Func) ReachableAfterFailure(fail []*cfgx.Edge) map[*cfgx.Node]*cfgx.Vis
 	}
 	return res
 }
+
+// ReturnKindsFrom explores the graph from the start visits and classifies
+// every return it reaches by its error result, tracking along each path what
+// is known about local error variables (nil / non-nil after an assignment of
+// nil, of an always-error constructor or of another tracked variable, and after
+// nil tests). A return of a variable is classified by the path's knowledge
+// when there is any, otherwise as ClassifyReturn does. The result maps each
+// reached return to the set of kinds it can have (bit i set = RetKind i).
+// Used for "no error-capable return after X": a helper's results copied into
+// named results and returned once at the end keep their per-path meaning.
+func (f *Func) ReturnKindsFrom(start []*cfgx.Visit) map[*cfgx.Node]uint {
+	idx := map[types.Object]uint{}
+	number := func(o types.Object) (uint, bool) {
+		if o == nil || !IsErrorType(o.Type()) {
+			return 0, false
+		}
+		if v, isVar := o.(*types.Var); !isVar || v.IsField() || (v.Pkg() != nil && v.Parent() == v.Pkg().Scope()) {
+			return 0, false
+		}
+		if i, ok := idx[o]; ok {
+			return i, true
+		}
+		if len(idx) >= 15 {
+			return 0, false
+		}
+		idx[o] = uint(len(idx))
+		return idx[o], true
+	}
+	get := func(st cfgx.State, i uint) cfgx.State { return (st >> (2 * i)) & 3 } // 0 unknown, 1 nil, 2 non-nil
+	set := func(st cfgx.State, i uint, v cfgx.State) cfgx.State { return st&^(3<<(2*i)) | v<<(2*i) }
+	errIdx, named := f.errResult()
+	out := map[*cfgx.Node]uint{}
+	g := f.Graph()
+	g.Explore(start, cfgx.Walker{
+		AtNode: func(n *cfgx.Node, st cfgx.State) (cfgx.State, bool) {
+			if n.AST == nil {
+				return st, true
+			}
+			if rs, isRet := n.AST.(*ast.ReturnStmt); isRet {
+				kind := f.ClassifyReturn(n)
+				var e ast.Expr
+				switch {
+				case errIdx >= 0 && errIdx < len(rs.Results) && len(rs.Results) > errIdx:
+					e = rs.Results[errIdx]
+				}
+				var o types.Object
+				if e != nil {
+					o = f.ObjOf(e)
+				} else if len(rs.Results) == 0 {
+					o = named
+				}
+				if i, ok := number(o); ok && o != nil {
+					switch get(st, i) {
+					case 1:
+						kind = RetSuccess
+					case 2:
+						kind = RetError
+					}
+				}
+				out[n] |= 1 << uint(kind)
+				return st, false
+			}
+			for _, w := range f.WritesIn(n.AST, false) {
+				i, ok := number(f.ObjOf(w.LHS))
+				if !ok {
+					continue
+				}
+				v := cfgx.State(0)
+				if w.RHS != nil {
+					switch {
+					case f.IsNil(w.RHS):
+						v = 1
+					default:
+						if j, ok := number(f.ObjOf(w.RHS)); ok && f.ObjOf(w.RHS) != nil {
+							v = get(st, j)
+						} else if call, isCall := ast.Unparen(w.RHS).(*ast.CallExpr); isCall && f.P.AlwaysErr(f.Callee(call), 0) {
+							v = 2
+						}
+					}
+				}
+				st = set(st, i, v)
+			}
+			return st, true
+		},
+		OnEdge: func(e *cfgx.Edge, st cfgx.State) (cfgx.State, bool) {
+			if e.Cond == nil || (e.Kind != cfgx.True && e.Kind != cfgx.False) {
+				return st, true
+			}
+			x, nonNilOnTrue, ok := f.NilTest(e.Cond)
+			if !ok {
+				return st, true
+			}
+			i, ok := number(f.ObjOf(x))
+			if !ok {
+				return st, true
+			}
+			want := cfgx.State(1)
+			if nonNilOnTrue == (e.Kind == cfgx.True) {
+				want = 2
+			}
+			if cur := get(st, i); cur != 0 && cur != want {
+				return st, false
+			}
+			return set(st, i, want), true
+		},
+	})
+	return out
+}
